@@ -34,7 +34,7 @@ TRUSTED = [
 ]
 ASSUMPTIONS = [
     'classes Sub / Top / Plain below: Integer and list-valued parameters, Selectors declared without objects (by value / by name), sub-objects in ClassSelector parameters, '
-    'explicit watchers (bound method, functools.partial of a bound method, watcher of the Parameter attribute bounds), an attribute in __slots__, one-level dependencies depends("p") / depends("a.x") / depends("a.y", "b.y") with watch=True, explicit bound-method watchers',
+    'explicit watchers (bound method, functools.partial of a bound method, watcher of the Parameter attribute bounds), an attribute in __slots__, dependencies depends("p", "q") / depends("a.x") / depends("mid.leaf.x") / depends("n", "mid.z"), batched param.update, one-level dependencies depends("p") / depends("a.x") / depends("a.y", "b.y") with watch=True, explicit bound-method watchers',
     'deeper dependency paths (their parent-notification callback is a closure: not picklable), watchers with what != value, '
     'lambdas, references (allow_refs), async methods and class-level watchers are outside the model',
 ]
@@ -44,7 +44,7 @@ RULE = ('histories of object creation, sets, in-place mutations, per-instance Pa
         'both graphs at copy time and after every later operation, invocation logs with the side of every invoked object, '
         'and the same copy-side operations on a twin of the original. non-trivial = the copy succeeded, >=2 post operations, '
         'at least one watcher in the copied graph; distinct = distinct canonical case')
-COVERAGE_TARGETS = ['copy:ok', 'pre:slot-watcher', 'pre:partial-watcher', 'pre:slots-attribute', 'post:pedit-bounds-with-slot-watcher', 'selector:set-after-copy', 'selector:named-after-copy', 'selector:own-copy-before-copy', 'mech:deepcopy', 'mech:pickle2', 'mech:pickle3', 'mech:pickle4', 'mech:pickle5',
+COVERAGE_TARGETS = ['copy:ok', 'root:Root3', 'pre:depth2-dependency-wired', 'post:update-batch', 'pre:multi-name-watcher', 'post:replace-leaf-on-copy', 'post:replace-mid-on-copy', 'pre:slot-watcher', 'pre:partial-watcher', 'pre:slots-attribute', 'post:pedit-bounds-with-slot-watcher', 'selector:set-after-copy', 'selector:named-after-copy', 'selector:own-copy-before-copy', 'mech:deepcopy', 'mech:pickle2', 'mech:pickle3', 'mech:pickle4', 'mech:pickle5',
                     'root:Top', 'root:Plain', 'root:Sub', 'pre:sub-attached-with-dependency', 'pre:sub-attached-no-dependency',
                     'pre:detached-again', 'pre:pedit', 'pre:attr', 'pre:explicit-watcher', 'pre:cross-object-watcher',
                     'post:orig', 'post:copy', 'post:attach-new-sub', 'post:log-nonempty']
@@ -61,6 +61,10 @@ class Sub(param.Parameterized):
     @param.depends('x', watch=True)
     def s(self):
         LOG.append((self, 's'))
+
+    @param.depends('x', 'y', watch=True)
+    def sxy(self):
+        LOG.append((self, 'sxy'))
 
     def cb(self, *events):
         LOG.append((self, 'cb'))
@@ -116,12 +120,44 @@ class Plain(param.Parameterized):
         LOG.append((self, 'cbt'))
 
 
-PY_CLASSES = [Sub, Top, Plain]
+class Leaf(param.Parameterized):
+    x = param.Integer(0)
+    y = param.Integer(0)
+
+    def cb(self, *events):
+        LOG.append((self, 'cb'))
+
+
+class Mid(param.Parameterized):
+    leaf = param.ClassSelector(class_=Leaf, default=None, allow_None=True)
+    z = param.Integer(0)
+
+    def cb(self, *events):
+        LOG.append((self, 'cb'))
+
+
+class Root3(param.Parameterized):
+    mid = param.ClassSelector(class_=Mid, default=None, allow_None=True)
+    n = param.Integer(1, bounds=(0, 100))
+
+    @param.depends('mid.leaf.x', watch=True)
+    def m(self):
+        LOG.append((self, 'm'))
+
+    @param.depends('n', 'mid.z', watch=True)
+    def nz(self):
+        LOG.append((self, 'nz'))
+
+    def cb(self, *events):
+        LOG.append((self, 'cb'))
+
+
+PY_CLASSES = [Sub, Top, Plain, Leaf, Mid, Root3]
 CLASSES = [
     {'name': 'Sub', 'params': [{'name': 'x', 'default': 0, 'inst': False, 'bounds': None},
                                {'name': 'y', 'default': 0, 'inst': False, 'bounds': None},
                                {'name': 'l', 'default': [5], 'inst': True, 'bounds': None}],
-     'methods': [{'name': 's', 'deps': [['x']]}], 'plain': ['cb', 'cbt']},
+     'methods': [{'name': 's', 'deps': [['x']]}, {'name': 'sxy', 'deps': [['x'], ['y']]}], 'plain': ['cb', 'cbt']},
     {'name': 'Top', 'params': [{'name': 'a', 'default': None, 'inst': True, 'bounds': None},
                                {'name': 'b', 'default': None, 'inst': True, 'bounds': None},
                                {'name': 'n', 'default': 1, 'inst': False, 'bounds': [0, 100]},
@@ -135,6 +171,17 @@ CLASSES = [
                                  {'name': 'choice', 'default': None, 'inst': False, 'bounds': None, 'sel': 'choice'},
                                  {'name': 'named', 'default': None, 'inst': False, 'bounds': None, 'sel': 'named'}],
      'methods': [{'name': 'k', 'deps': [['n']]}], 'plain': ['cb', 'cbt']},
+]
+CLASSES += [
+    {'name': 'Leaf', 'params': [{'name': 'x', 'default': 0, 'inst': False, 'bounds': None},
+                                {'name': 'y', 'default': 0, 'inst': False, 'bounds': None}],
+     'methods': [], 'plain': ['cb']},
+    {'name': 'Mid', 'params': [{'name': 'leaf', 'default': None, 'inst': True, 'bounds': None},
+                               {'name': 'z', 'default': 0, 'inst': False, 'bounds': None}],
+     'methods': [], 'plain': ['cb']},
+    {'name': 'Root3', 'params': [{'name': 'mid', 'default': None, 'inst': True, 'bounds': None},
+                                 {'name': 'n', 'default': 1, 'inst': False, 'bounds': [0, 100]}],
+     'methods': [{'name': 'm', 'deps': [['mid', 'leaf', 'x']]}, {'name': 'nz', 'deps': [['n'], ['mid', 'z']]}], 'plain': ['cb']},
 ]
 MECHS = ['deepcopy', 'pickle2', 'pickle3', 'pickle4', 'pickle5']
 
@@ -196,6 +243,17 @@ def _methods(o):
     return [m['name'] for m in CLASSES[PY_CLASSES.index(type(o))]['methods']]
 
 
+def _fn_callback(fn):
+    """the parent-notification callback of a method caller: (object, attribute) | None"""
+    cb = fn.keywords.get('callback') if hasattr(fn, '_watcher_name') else None
+    if cb is None:
+        return None
+    if not (isinstance(cb, functools.partial) and cb.func.__name__ == '_update_deps_of' and len(cb.args) == 2):
+        # (the local closure of the source before a036968 lands here: it cannot be inspected)
+        return ('closure', None)
+    return cb.args
+
+
 def _fn_owner(fn):
     if hasattr(fn, '_watcher_name'):
         ch = fn.keywords.get('changed')
@@ -244,13 +302,13 @@ def _children(o):
             out.append(v)
     for p in _params(o):
         for w in _wlist(o, p):
-            out += [w.inst, _fn_owner(w.fn)[0]]
+            out += _wrefs(w)
     for p in _params(o):
         for w in _slot_watchers(o, p):
-            out += [w.inst, _fn_owner(w.fn)[0]]
+            out += _wrefs(w)
     for m in _methods(o):
         for w in o._param__private.dynamic_watchers.get(m, []):
-            out += [w.inst, _fn_owner(w.fn)[0]]
+            out += _wrefs(w)
     return out
 
 
@@ -309,7 +367,15 @@ def _wrow(w, order, what):
     own, kind, meth, changed = _fn_owner(w.fn)
     if w.what != what or w.mode != 'args' or w.queued or not w.onlychanged:
         raise RuntimeError(f'watcher outside the modelled shape: {w}')
-    return [_label(order, w.inst), kind, _label(order, own), meth, changed, w.precedence]
+    cb = _fn_callback(w.fn)
+    if cb is not None:
+        cb = [len(order) if cb[0] == 'closure' else _label(order, cb[0]), cb[1]]
+    return [_label(order, w.inst), kind, _label(order, own), meth, changed, w.precedence, cb]
+
+
+def _wrefs(w):
+    cb = _fn_callback(w.fn)
+    return [w.inst, _fn_owner(w.fn)[0]] + ([cb[0]] if cb is not None and cb[0] != 'closure' else [])
 
 
 def snapshot(root):
@@ -387,7 +453,9 @@ class _Side:
         elif o == 'selAdd':
             self.ref(op['o']).param[op['p']].objects[f'k{op["n"]}'] = op['n']
         elif o == 'watch':
-            self.ref(op['o']).param.watch(getattr(self.ref(op['target']), op['cb']), [op['p']])
+            self.ref(op['o']).param.watch(getattr(self.ref(op['target']), op['cb']), list(op['ps']))
+        elif o == 'update':
+            self.ref(op['o']).param.update(**{k: self.arg(v) for k, v in op['kvs']})
         elif o == 'watchPartial':
             self.ref(op['o']).param.watch(functools.partial(getattr(self.ref(op['target']), op['cb']), 'T'), [op['p']])
         elif o == 'watchSlot':
@@ -506,7 +574,11 @@ def seladd(o, p, n):
 
 
 def watch(o, p, target, cb='cb'):
-    return {'op': 'watch', 'o': o, 'p': p, 'target': target, 'cb': cb}
+    return {'op': 'watch', 'o': o, 'ps': [p] if isinstance(p, str) else list(p), 'target': target, 'cb': cb}
+
+
+def update(o, **kvs):
+    return {'op': 'update', 'o': o, 'kvs': [[k, v] for k, v in kvs.items()]}
 
 
 def watchp(o, p, target):
@@ -522,7 +594,7 @@ def case(pre, root, mech, post):
             'post': [{'side': s, 'op': o} for s, o in post]}
 
 
-SUB, TOP, PLAIN = 0, 1, 2
+SUB, TOP, PLAIN, LEAF, MID, ROOT3 = 0, 1, 2, 3, 4, 5
 # the witness of the defect: an attached sub-object carries the watcher of the parent's depends('a.x') method
 WITNESS_PRE = [new(SUB, x=1), new(TOP, a=R(H(0)))]
 
@@ -568,6 +640,21 @@ def directed():
                    [('copy', pedit(CP(), 'n', bounds=[0, 60])), ('orig', pedit(H(1), 'n', bounds=[0, 70])), ('copy', pedit(CP('a'), 'x', bounds=[0, 9])),
                     ('copy', pedit(CP(), 'n', bounds=[0, 60])), ('copy', set_(CP(), 'n', 4)), ('orig', set_(H(0), 'y', 3)), ('copy', set_(CP('a'), 'y', 3)),
                     ('copy', mutattr(CP(), 'tag', 5)), ('orig', setattr_(H(1), 'tag', 7)), ('copy', pedit(CP(), 'n', bounds=None))])
+        # (f) a method / an explicit watcher of several parameters runs once per batched update, on the copy as on the original
+        yield case([new(SUB, x=1), watch(H(0), ['x', 'y'], H(0)), set_(H(0), 'y', 2)], H(0), mech,
+                   [('copy', update(CP(), x=3, y=4)), ('orig', update(H(0), x=5, y=6)), ('copy', update(CP(), x=3, y=7)), ('copy', set_(CP(), 'x', 8)),
+                    ('copy', update(CP(), x=8, y=7))])
+        yield case([new(SUB, x=1), new(TOP, a=R(H(0)), b=R(H(0))), watch(H(0), ['x', 'y'], H(1))], H(1), mech,
+                   [('copy', update(CP('a'), x=3, y=4)), ('orig', update(H(0), x=5, y=6)), ('copy', update(CP(), n=7))])
+        # (g) a dependency path through two sub-objects: replacing the leaf / the middle object on the copy rebinds on the copy
+        yield case([new(LEAF, x=1), new(MID, leaf=R(H(0))), new(ROOT3, mid=R(H(1)))], H(2), mech,
+                   [('new', new(LEAF, x=5)), ('copy', set_(CP('mid'), 'leaf', R(H(3)))), ('copy', set_(CP('mid', 'leaf'), 'x', 7)), ('orig', set_(H(0), 'x', 9)),
+                    ('new', new(LEAF, x=2)), ('new', new(MID, leaf=R(H(4)))), ('copy', set_(CP(), 'mid', R(H(5)))), ('copy', set_(CP('mid', 'leaf'), 'x', 3)),
+                    ('copy', set_(CP('mid'), 'z', 4)), ('copy', update(CP(), n=5)), ('orig', set_(H(1), 'leaf', None)), ('copy', set_(CP('mid'), 'leaf', None)),
+                    ('copy', set_(CP(), 'mid', None))])
+        yield case([new(MID), new(ROOT3, mid=R(H(0))), new(LEAF, x=4), set_(H(0), 'leaf', R(H(2))), set_(H(2), 'x', 5)], H(1), mech,
+                   [('copy', set_(CP('mid', 'leaf'), 'x', 6)), ('orig', set_(H(2), 'x', 7)), ('new', new(LEAF, x=6)), ('copy', set_(CP('mid'), 'leaf', R(H(3)))),
+                    ('copy', set_(CP('mid', 'leaf'), 'x', 1))])
         # both slots, one sub-object shared by two parents
         yield case([new(SUB, x=1), new(SUB, y=2), new(TOP, a=R(H(0)), b=R(H(1))), new(TOP, a=R(H(0)))], H(2), mech, [])
 
@@ -576,7 +663,7 @@ def _random_case(rng, mech):
     pre, nodes = [], []          # nodes[h] = {'cls', 'a', 'b', 'l': 'list'|'int', 'attrs': {name: kind}}
 
     def node(cls, a=None, b=None):
-        return {'cls': cls, 'a': a, 'b': b, 'l': 'list', 'attrs': {}, 'const': []}
+        return {'cls': cls, 'a': a, 'b': b, 'l': 'list', 'attrs': {}, 'const': [], 'watched': []}
 
     nsub = rng.choice([0, 1, 1, 2])
     for _ in range(nsub):
@@ -603,12 +690,19 @@ def _random_case(rng, mech):
         pre.append(new(TOP, a=R(H(0))))
         nodes.append(node(TOP, a=0))
 
+    def mutattr_or_set(nd, target_ref):
+        nd['attrs']['tag'] = 'int'
+        return setattr_(target_ref, 'tag', rng.randint(1, 9))
+
     def one_op(target_ref, nd, subrefs, fresh):
         """an operation on object `nd` addressed by target_ref; subrefs: {slot: ref of the attached Sub}"""
         cls = nd['cls']
         r = rng.random()
         ints = ['x', 'y'] if cls == SUB else ['n']
         free_ints = [p for p in ints if p not in nd['const']]
+        if r < 0.08 and free_ints:
+            # one batch: a method depending on several of these parameters must run once
+            return update(target_ref, **{p: (rng.randint(0, 5) if p != 'n' else rng.randint(0, 50)) for p in free_ints})
         if r < 0.3 and free_ints:
             p = rng.choice(free_ints)
             return set_(target_ref, p, rng.randint(0, 5) if p != 'n' else rng.randint(0, 50))
@@ -646,7 +740,12 @@ def _random_case(rng, mech):
                         else seladd(target_ref, 'named', rng.randint(1, 6)))
             k = rng.random()
             if k < 0.4:
-                return watch(target_ref, rng.choice(ints), target_ref)
+                # (a watcher is never registered twice on the same names: equal watcher objects are outside the model)
+                ps = ints if (cls == SUB and rng.random() < 0.4) else [rng.choice(ints)]
+                if ps not in nd['watched']:
+                    nd['watched'].append(ps)
+                    return watch(target_ref, ps, target_ref)
+                return update(target_ref, **{p: rng.randint(0, 5) for p in free_ints}) if free_ints else mutattr_or_set(nd, target_ref)
             if k < 0.7:
                 return watchp(target_ref, rng.choice(ints), target_ref)
             return watchs(target_ref, rng.choice(ints), target_ref)
@@ -668,8 +767,12 @@ def _random_case(rng, mech):
         h = rng.choice([root] * 3 + list(range(len(nodes))))
         nd = nodes[h]
         op = one_op(H(h), nd, {}, [i for i in range(nsub)])
-        if op['op'] in ('watch', 'watchPartial', 'watchSlot') and nd['cls'] == SUB and rng.random() < 0.5:
+        if op['op'] in ('watchPartial', 'watchSlot') and nd['cls'] == SUB and rng.random() < 0.5:
             op = dict(op, target=H(root))                            # the root watches a sub-object explicitly
+        elif op['op'] == 'watch' and nd['cls'] == SUB and rng.random() < 0.5 and ['root'] + op['ps'] not in nd['watched']:
+            nd['watched'].remove(op['ps'])
+            nd['watched'].append(['root'] + op['ps'])
+            op = dict(op, target=H(root))
         pre.append(op)
     # post histories
     import copy as _c
@@ -708,6 +811,80 @@ def _random_case(rng, mech):
     return case(pre, H(root), mech, post)
 
 
+def _random_case3(rng, mech):
+    """Root3 -> Mid -> Leaf with depends('mid.leaf.x') and depends('n', 'mid.z'): attach / replace / detach the
+    middle object and the leaf, before and after the copy, on both sides"""
+    pre = []
+    tree = {'mid': None}                       # shadow: root -> {'mid': None | {'leaf': bool}}
+    h = 0
+    mid_h = None
+    if rng.random() < 0.8:
+        leaf = rng.random() < 0.7
+        if leaf:
+            pre.append(new(LEAF, x=rng.randint(0, 3)))
+            h += 1
+            pre.append(new(MID, leaf=R(H(h - 1))))
+        else:
+            pre.append(new(MID))
+        mid_h = h
+        h += 1
+        tree['mid'] = {'leaf': leaf}
+    pre.append(new(ROOT3, **({'mid': R(H(mid_h))} if mid_h is not None else {})))
+    root = h
+    h += 1
+
+    def ops_for(side, t, hcount, out):
+        """append one operation on `side` ('pre' addresses the original by handle); returns the new handle count"""
+        ref = (lambda *p: CP(*p)) if side == 'copy' else (lambda *p: H(root, *p))
+        tagged = lambda op: out.append(op if side == 'pre' else (side, op))
+        fresh = lambda op: out.append(op if side == 'pre' else ('new', op))
+        r = rng.random()
+        if r < 0.25 and t['mid'] and t['mid']['leaf']:
+            tagged(set_(ref('mid', 'leaf'), rng.choice(['x', 'x', 'y']), rng.randint(0, 5)))
+        elif r < 0.35 and t['mid']:
+            tagged(set_(ref('mid'), 'z', rng.randint(0, 5)))
+        elif r < 0.45:
+            tagged(update(ref(), n=rng.randint(0, 50)) if rng.random() < 0.5 else set_(ref(), 'n', rng.randint(0, 50)))
+        elif r < 0.65 and t['mid']:
+            if rng.random() < 0.75:
+                fresh(new(LEAF, x=rng.randint(0, 5)))
+                tagged(set_(ref('mid'), 'leaf', R(H(hcount))))
+                hcount += 1
+                t['mid']['leaf'] = True
+            else:
+                tagged(set_(ref('mid'), 'leaf', None))
+                t['mid']['leaf'] = False
+        elif r < 0.9:
+            k = rng.random()
+            if k < 0.45:
+                fresh(new(LEAF, x=rng.randint(0, 5)))
+                fresh(new(MID, leaf=R(H(hcount))))
+                tagged(set_(ref(), 'mid', R(H(hcount + 1))))
+                hcount += 2
+                t['mid'] = {'leaf': True}
+            elif k < 0.75:
+                fresh(new(MID))
+                tagged(set_(ref(), 'mid', R(H(hcount))))
+                hcount += 1
+                t['mid'] = {'leaf': False}
+            else:
+                tagged(set_(ref(), 'mid', None))
+                t['mid'] = None
+        else:
+            tagged(pedit(ref(), 'n', bounds=[0, rng.randint(60, 100)]))
+        return hcount
+
+    for _ in range(rng.randint(0, 4)):
+        h = ops_for('pre', tree, h, pre)
+    import copy as _c
+    ctree = _c.deepcopy(tree)
+    post = []
+    for _ in range(rng.randint(2, 8)):
+        side = 'copy' if rng.random() < 0.6 else 'orig'
+        h = ops_for(side, ctree if side == 'copy' else tree, h, post)
+    return case(pre, H(root), mech, post)
+
+
 def cases(rng, tier, worker, nworkers):
     if worker == 0:
         for f in sorted(glob.glob(os.path.join(os.path.dirname(__file__), '..', '..', 'corpus', 'C17', '*.json'))):
@@ -715,7 +892,7 @@ def cases(rng, tier, worker, nworkers):
         yield from directed()
     n_random = 2200 if tier == "quick" else 40000 // nworkers
     for j in range(n_random):
-        yield _random_case(rng, MECHS[j % len(MECHS)])
+        yield (_random_case3 if j % 4 == 3 else _random_case)(rng, MECHS[j % len(MECHS)])
 
 
 # ------------------------------------------------------------------ reporting
@@ -753,8 +930,19 @@ def tags(case, impl):
             t.append('pre:detached-again')
         if any(own for o in snap for _, own, _, _ in o.get('sel', [])):
             t.append('selector:own-copy-before-copy')
+        if any(w[6] is not None for o in snap for _, ws in o['watchers'] for w in ws):
+            t.append('pre:depth2-dependency-wired')
+        if len(set(id(w) for o in snap for _, ws in o['watchers'] for w in ws)) >= 0 and any(
+                sum(1 for _, ws2 in o['watchers'] if w in ws2) > 1 for o in snap for _, ws in o['watchers'] for w in ws):
+            t.append('pre:multi-name-watcher')
         for p, po in zip(case['post'], impl.get('post', [])):
             t.append('post:' + p['side'])
+            if p['op']['op'] == 'update':
+                t.append('post:update-batch')
+            if p['side'] == 'copy' and p['op']['op'] == 'set' and p['op']['p'] == 'leaf':
+                t.append('post:replace-leaf-on-copy')
+            if p['side'] == 'copy' and p['op']['op'] == 'set' and p['op']['p'] == 'mid':
+                t.append('post:replace-mid-on-copy')
             if p['op']['op'] == 'pedit' and 'bounds' in p['op'] and po['log']:
                 t.append('post:pedit-bounds-with-slot-watcher')
             if p['op']['op'] == 'selAdd':
